@@ -17,6 +17,10 @@ PC = "chalk_solve::clauses::program_clauses::ToProgramClauses"
 
 
 def run(ck, facts, tier):
+    from props.c18 import alias_rows
+    alias_rows(ck, facts, "C07.ALIAS-NOT-FILTERED")
+    from shared import clauses as _clx
+    _clx.clauses_no_drop(ck, facts, "C07.CLAUSES-NO-DROP")
     R = "C07.NORMALIZE-FROM-IMPL"
     ck.rule(R, "K2: the Normalize-From-Impl clause has consequence Normalize { alias: Projection(projection), ty: assoc_ty_value.ty } and conditions "
                "impl_where_clauses.chain(assoc_ty_where_clauses), each substituted; "
